@@ -572,7 +572,8 @@ theorem binv_setTrackedOutputs (st st' : BuildState) (hb : BInv st) (bi : Nat)
 
 theorem linvS_addOrderLink (s s' : St) (hs : LInvS s) (a b : Nat) (h : Store.addOrderLink s a b = .ok s') : LInvS s' := by
   obtain ⟨b1, b2, b3, b4, _⟩ := addOrderLink_loc s s' hs.links a b h
-  refine ⟨b1, addOrderLink_free s s' hs.free a b h, ?_, kindInv_addOrderLink s s' hs.links hs.kind a b h⟩
+  refine ⟨b1, addOrderLink_free s s' hs.free a b h, ?_, kindInv_addOrderLink s s' hs.links hs.kind a b h,
+    liveInv_addOrderLink s s' hs.links hs.live a b h⟩
   refine locInv_step (hframe_of_grow b2 b4) hs.loc ?_
   intro l hm hn hv _
   rcases b3 l hm with h' | h'
